@@ -233,6 +233,33 @@ def run(ctx):
                 ctx.violation('torch intersect_w_sphere flags a hit at %s which is not on the sphere' % p.tolist(), rec,
                               {'fn': 'intersect_w_sphere', 'api': 'torch', 'what': 'wrong_number', 'case': name})
 
+    # the same solver for rays and spheres that carry autograd history (learned leaves, results of earlier differentiable steps, rays the library
+    # built from learned points): one mixed batch (hit, off-axis hit, two misses, start inside); it returns, and its flags are those of plain tensors
+    batch = [[[0, 0, 0], [0, 0, 1.0]], [[0.5, 0.2, 0], [0, 0, 1.0]], [[0, 0, 0], [1.0, 0, 0]], [[10.0, 0, 0], [0, 0, 1.0]], [[0, 0, 10.0], [0, 0, 1.0]]]
+    ref_flags = None
+    for prov in ('plain', 'leaf', 'scaled', 'two_points', 'refracted'):
+        rec = {'kind': 'sphere_torch', 'name': 'mixed batch, tensors with provenance ' + prov, 'rays': batch, 'sphere': sph, 'steps': 400, 'provenance': prov}
+        st, res = wd.run(rec, limit=90)
+        ctx.case(('sphere_torch_provenance', prov), True)
+        ctx.count('sphere_torch/provenance/' + prov)
+        if st != 'ok':
+            ctx.violation('torch intersect_w_sphere does not return for rays / sphere with provenance %r' % prov, rec,
+                          {'fn': 'intersect_w_sphere', 'api': 'torch', 'what': 'hang', 'case': 'provenance'})
+            continue
+        if 'exception' in res:
+            ctx.violation('torch intersect_w_sphere raised %s for a mixed batch whose tensors carry autograd history (%s)' % (res['exception'], prov), rec,
+                          {'fn': 'intersect_w_sphere', 'api': 'torch', 'what': 'exception', 'case': 'provenance'})
+            continue
+        flags = [bool(x) for x in res['check']]
+        if ref_flags is None:
+            ref_flags = flags
+            if flags[2] or flags[3]:
+                ctx.violation('torch intersect_w_sphere reports a hit for a ray that misses (mixed batch)', rec,
+                              {'fn': 'intersect_w_sphere', 'api': 'torch', 'what': 'unflagged', 'case': 'provenance'})
+        elif flags != ref_flags:
+            ctx.violation('torch intersect_w_sphere: hit flags %s for tensors with provenance %r differ from the flags %s for plain tensors of the same values'
+                          % (flags, prov, ref_flags), rec, {'fn': 'intersect_w_sphere', 'api': 'torch', 'what': 'provenance_flags', 'case': 'provenance'})
+
     # ---------------- NumPy secant solver (ray-sphere, ray-cylinder) with its iteration cap
     np_cases = [('sphere_np', 'hit', [[0, 0, 0], [0, 0, 1.0]], [0, 0, 10.0, 3.0], True),
                 ('sphere_np', 'miss', [[0, 0, 0], [1.0, 0, 0]], [0, 0, 10.0, 3.0], False),
